@@ -23,11 +23,16 @@ import (
 	"fmt"
 	"math"
 	"sort"
+	"strconv"
 	"strings"
+	"sync"
 	"testing"
 
+	"github.com/honeycombio/refinery/collect"
 	"github.com/honeycombio/refinery/config"
 	"github.com/honeycombio/refinery/internal/verifkit"
+	"github.com/honeycombio/refinery/transmit"
+	"github.com/honeycombio/refinery/types"
 )
 
 // c20Reserved: the meta.* names in Refinery's documentation plus its declared metadata
@@ -61,7 +66,9 @@ var c20Ints = []int64{0, 1, -1, 31, 32, -32, -33, 127, 128, -128, -129, 255, 256
 	1<<31 - 1, 1 << 31, -(1 << 31), -(1 << 31) - 1, 1<<32 - 1, 1 << 32, 1<<53 - 1, 1 << 53, 1<<53 + 1, math.MaxInt64, math.MinInt64, 200, 404}
 
 var c20Floats = []float64{0, 0.5, -0.5, 1.5, 5, 200, 0.1, 3.141592653589793, 1e6, 1.000001e6, 1e21, 1e-7, 7.52573035551612e-08, 1e300, 5e-324,
-	math.MaxFloat64, 16777216, 16777217, 1 << 53, 123456.789, -2.5e10}
+	math.MaxFloat64, 16777216, 16777217, 1 << 53, 123456.789, -2.5e10,
+	// mantissa/exponent pairs fastjson's own float conversion rounds wrongly in exponent notation
+	8.052275599395e+11, 940.509, 788.604915019345, 1.234567e6, 2.5000005e6}
 
 var c20Strs = []string{"", "a", "hello world", "ünïcödé ✓", "with \"quotes\" and \\ backslash", "line\nbreak\ttab", "0123456789012345678901234567890123456789",
 	"5", "true", "null", "{\"json\":1}"}
@@ -257,7 +264,11 @@ func c20HasInteger(v E3Val) bool {
 func c20Compare(in, out E3Val, classes map[string]string, viaJSON bool) []c20Diff {
 	var diffs []c20Diff
 	count := map[string]int{}
-	for _, kv := range out.Map {
+	first := map[string]int{}
+	for i, kv := range out.Map {
+		if count[kv.Key] == 0 {
+			first[kv.Key] = i
+		}
 		count[kv.Key]++
 	}
 	inKeys := map[string]bool{}
@@ -278,7 +289,7 @@ func c20Compare(in, out E3Val, classes map[string]string, viaJSON bool) []c20Dif
 			diffs = append(diffs, c20Diff{Key: kv.Key, Class: cls, What: "duplicated", Kind: c20KindName(iv), In: &iv})
 			continue
 		}
-		ov, _ := out.Get(kv.Key)
+		ov := out.Map[first[kv.Key]].Val
 		if viaJSON && e3Equiv(iv, ov, viaJSON) && c20HasInteger(ov) {
 			// "JSON numbers becoming floats": JSON has one number type; an integer on the way
 			// out is a kind change (and makes the value depend on which JSON path it took)
@@ -299,6 +310,172 @@ func c20Compare(in, out E3Val, classes map[string]string, viaJSON bool) []c20Dif
 	return diffs
 }
 
+// ---- JSON rendering with number spellings ----
+
+// c20JSONNumber spells a float64 in one of the ways JSON allows; every spelling denotes
+// exactly f (strconv's shortest round-trip digits).
+func c20JSONNumber(b []byte, f float64, rng *verifkit.Rand) []byte {
+	style := rng.Intn(10)
+	if style < 4 {
+		return strconv.AppendFloat(b, f, 'g', -1, 64)
+	}
+	e := strconv.FormatFloat(f, 'e', -1, 64) // d.ddde±dd
+	i := strings.IndexByte(e, 'e')
+	mant, sign, digits := e[:i], e[i+1:i+2], strings.TrimLeft(e[i+2:], "0")
+	if digits == "" {
+		digits = "0"
+	}
+	switch style {
+	case 4:
+		return append(b, e...)
+	case 5: // upper-case E, sign only when negative
+		if sign == "+" {
+			sign = ""
+		}
+		return append(b, mant+"E"+sign+digits...)
+	case 6: // E+ / E-
+		return append(b, mant+"E"+sign+digits...)
+	case 7: // leading zeros in the exponent
+		return append(b, mant+"E"+sign+"00"+digits...)
+	case 8: // lower-case, leading zeros, explicit sign
+		return append(b, mant+"e"+sign+"0"+digits...)
+	default: // plain decimal where that stays short
+		p := strconv.FormatFloat(f, 'f', -1, 64)
+		if len(p) > 40 {
+			p = mant + "E" + sign + digits
+		}
+		return append(b, p...)
+	}
+}
+
+// c20AppendJSON is e3AppendJSON (same tree, same key order) with PRNG-chosen spellings of
+// floating-point numbers.
+func c20AppendJSON(b []byte, v E3Val, rng *verifkit.Rand) ([]byte, error) {
+	switch v.Kind {
+	case KF32, KF64:
+		if math.IsNaN(v.F) || math.IsInf(v.F, 0) {
+			return b, errE3NotJSON
+		}
+		return c20JSONNumber(b, v.F, rng), nil
+	case KArr:
+		b = append(b, '[')
+		for i, x := range v.Arr {
+			if i > 0 {
+				b = append(b, ',')
+			}
+			var err error
+			if b, err = c20AppendJSON(b, x, rng); err != nil {
+				return b, err
+			}
+		}
+		return append(b, ']'), nil
+	case KMap:
+		b = append(b, '{')
+		for i, kv := range v.Map {
+			if i > 0 {
+				b = append(b, ',')
+			}
+			k, _ := e3AppendJSON(nil, VStr(kv.Key))
+			b = append(append(b, k...), ':')
+			var err error
+			if b, err = c20AppendJSON(b, kv.Val, rng); err != nil {
+				return b, err
+			}
+		}
+		return append(b, '}'), nil
+	}
+	return e3AppendJSON(b, v)
+}
+
+// ---- marshalling into caller-provided buffers ----
+
+// c20BufRec sits behind the bench's recording transmissions and collector. At hand-over it
+// marshals the payload the way a DirectTransmission does — appending to a buffer it already
+// owns (transmit/direct_transmit.go: pooled batch buffer) — with PRNG-chosen prefix lengths
+// and spare capacities around the payload size, and keeps what was appended.
+type c20BufResult struct {
+	ID      string
+	Site    string
+	Prefix  int
+	Spare   int
+	Size    int
+	Problem string
+	Out     E3Val
+}
+
+type c20BufRec struct {
+	mu   sync.Mutex
+	rng  *verifkit.Rand
+	site string
+	res  *[]c20BufResult
+}
+
+var (
+	_ transmit.Transmission = (*c20BufRec)(nil)
+	_ collect.Collector     = (*c20BufRec)(nil)
+)
+
+func (r *c20BufRec) marshal(ev *types.Event) {
+	r.mu.Lock()
+	defer r.mu.Unlock()
+	if r.rng == nil {
+		return
+	}
+	id, _ := ev.Data.Get("verif.id").(string)
+	ref, err := ev.Data.MarshalMsg(nil)
+	if err != nil {
+		return // reported from the bench's own snapshot
+	}
+	L := len(ref)
+	spares := []int{0, L, L - 1, L - 1 - r.rng.Intn(min(L, 2500)), L - r.rng.Range(900, 1400), r.rng.Intn(2*L + 1)}
+	for _, spare := range spares {
+		if spare < 0 {
+			continue
+		}
+		n := r.rng.Intn(65)
+		buf := make([]byte, n, n+spare)
+		for i := range buf {
+			buf[i] = 0xA5
+		}
+		res := c20BufResult{ID: id, Site: r.site, Prefix: n, Spare: spare, Size: L}
+		out, err := ev.Data.MarshalMsg(buf)
+		switch {
+		case err != nil:
+			res.Problem = "error: " + err.Error()
+		case len(out) < n:
+			res.Problem = "result shorter than the buffer it was appended to"
+		default:
+			for i := 0; i < n; i++ {
+				if out[i] != 0xA5 || buf[i] != 0xA5 {
+					res.Problem = "bytes before the append position were overwritten"
+				}
+			}
+			if res.Problem == "" {
+				v, rest, derr := e3DecodeMsgpack(out[n:])
+				switch {
+				case derr != nil:
+					res.Problem = "appended bytes do not decode: " + derr.Error()
+				case len(rest) != 0:
+					res.Problem = fmt.Sprintf("appended bytes decode to a %s with %d entries followed by %d stray bytes", v.Kind, len(v.Map), len(rest))
+				case v.Kind != KMap:
+					res.Problem = "appended value is a " + v.Kind.String()
+				default:
+					res.Out = v
+				}
+			}
+		}
+		*r.res = append(*r.res, res)
+	}
+}
+
+func (r *c20BufRec) EnqueueEvent(ev *types.Event)                      { r.marshal(ev) }
+func (r *c20BufRec) EnqueueSpan(sp *types.Span)                        { r.marshal(sp.Event) }
+func (r *c20BufRec) AddSpan(sp *types.Span) error                      { r.marshal(sp.Event); return nil }
+func (r *c20BufRec) AddSpanFromPeer(sp *types.Span) error              { r.marshal(sp.Event); return nil }
+func (r *c20BufRec) Stressed() bool                                    { return false }
+func (r *c20BufRec) GetStressedSampleRate(string) (uint, bool, string) { return 1, true, "verif" }
+func (r *c20BufRec) ProcessSpanImmediately(*types.Span) (bool, bool)   { return false, false }
+
 func TestVerif_C20(t *testing.T) {
 	run := verifkit.Start(t, "C20", "route")
 	defer run.Finish()
@@ -314,8 +491,15 @@ func TestVerif_C20(t *testing.T) {
 	b := e3New(t, E3Options{NoPeerRouter: true})
 	defer b.Close()
 	const peerAddr = "http://peer.verif.invalid:8081"
+	var bufResults []c20BufResult
+	recUp := &c20BufRec{site: "upstream", res: &bufResults}
+	recPeer := &c20BufRec{site: "peer", res: &bufResults}
+	recColl := &c20BufRec{site: "collector", res: &bufResults}
+	b.Upstream.SetInner(recUp)
+	b.PeerTx.SetInner(recPeer)
+	b.Collector.SetInner(recColl)
 
-	run.Cases("fields", run.N(6000, 300000), func(ci int, rng *verifkit.Rand) {
+	run.Cases("fields", run.N(3500, 150000), func(ci int, rng *verifkit.Rand) {
 		enc := verifkit.Pick(rng, c20EventJSON, c20EventMsgp, c20BatchJSON, c20BatchMsgp)
 		route := verifkit.Pick(rng, "upstream", "peer", "collector")
 		nev := 1
@@ -415,6 +599,12 @@ func TestVerif_C20(t *testing.T) {
 				}
 				add(k, v)
 			}
+			if rng.Chance(0.03) {
+				// a wide event: hundreds of small fields
+				for i, n := 0, rng.Range(300, 900); i < n; i++ {
+					add(c20Key{Name: fmt.Sprintf("w%03d", i), Class: "plain"}, verifkit.Pick(rng, VInt(int64(i)), VBool(true), VStr("v"), VF64(0.5)))
+				}
+			}
 			verifkit.Shuffle(rng, kvs)
 			data := VMap(kvs...)
 			events[id] = sent{data: data, classes: classes}
@@ -447,6 +637,31 @@ func TestVerif_C20(t *testing.T) {
 		if err != nil {
 			t.Fatalf("C20 harness: cannot render request: %v", err)
 		}
+		if enc.json() {
+			// same tree and key order, PRNG-chosen spellings of the floating-point numbers
+			jr := rng.Fork("json-spelling")
+			var body []byte
+			if enc == c20BatchJSON {
+				var arr []E3Val
+				for _, it := range items {
+					arr = append(arr, VMap(KV("data", *it.Data)))
+				}
+				body, err = c20AppendJSON(nil, E3Val{Kind: KArr, Arr: arr}, jr)
+			} else {
+				body, err = c20AppendJSON(nil, events[order[0]].data, jr)
+			}
+			if err != nil {
+				t.Fatalf("C20 harness: cannot render JSON: %v", err)
+			}
+			reqs[0].Body = body
+		}
+		if rng.Chance(0.15) {
+			// a long User-Agent becomes meta.refinery.incoming_user_agent (Refinery's own addition)
+			reqs[0].Set("User-Agent", "verif-agent/"+strings.Repeat("u", rng.Range(900, 3000)))
+		}
+		bufResults = bufResults[:0]
+		br := rng.Fork("buffers")
+		recUp.rng, recPeer.rng, recColl.rng = br, br, br
 		for _, req := range reqs {
 			resp := b.Serve(req)
 			if resp.Panicked != "" {
@@ -464,6 +679,7 @@ func TestVerif_C20(t *testing.T) {
 		}
 		obs := b.Log.Effects()
 		seen := map[string]int{}
+		snapDiffs := map[string]bool{} // event id | key | what | change, as seen in the bench's own (fresh-buffer) snapshot
 		for _, o := range obs {
 			var site string
 			switch o.Where {
@@ -512,6 +728,9 @@ func TestVerif_C20(t *testing.T) {
 				run.Sample(map[string]any{"encoding": enc.String(), "site": site, "client": s.data, "forwarded": out})
 			}
 			for _, d := range diffs {
+				snapDiffs[o.Ev.ID+"|"+d.Key+"|"+d.What+"|"+d.Leaf] = true
+			}
+			for _, d := range diffs {
 				// altered values are named by how the field travelled (decoded and re-encoded, or
 				// kept as the client's raw bytes) and by the change at the leaf; lost / duplicated /
 				// added fields by the key class
@@ -532,6 +751,31 @@ func TestVerif_C20(t *testing.T) {
 		for _, id := range order {
 			if seen[id] == 0 {
 				run.Count("event_not_handed_on", 1)
+			}
+		}
+		// the same payloads appended to caller-provided buffers: same oracle; only what the
+		// fresh-buffer snapshot did not already show is reported
+		for _, r := range bufResults {
+			s, ok := events[r.ID]
+			if !ok {
+				continue
+			}
+			run.Count("caller_buffer_marshals", 1)
+			if r.Size > 1024 {
+				run.Count("caller_buffer_marshals_over_1KiB", 1)
+			}
+			w := map[string]any{"encoding": enc.String(), "site": r.Site, "prefix_len": r.Prefix, "spare_capacity": r.Spare, "payload_size": r.Size, "client_fields": len(s.data.Map)}
+			if r.Problem != "" {
+				w["user_agent_len"] = len(reqs[0].Header.Get("User-Agent"))
+				run.Violation("C20/route/"+enc.String()+"/caller-buffer/not-a-whole-map", fmt.Sprintf("MarshalMsg appended to a buffer with %d bytes and %d spare capacity (payload %d bytes): %s", r.Prefix, r.Spare, r.Size, r.Problem), w)
+				continue
+			}
+			for _, d := range c20Compare(s.data, r.Out, s.classes, enc.json()) {
+				if snapDiffs[r.ID+"|"+d.Key+"|"+d.What+"|"+d.Leaf] {
+					continue
+				}
+				w["diff"] = d
+				run.Violation("C20/route/"+enc.String()+"/caller-buffer/"+d.What, fmt.Sprintf("field %q %s only when MarshalMsg appends to a caller-provided buffer (%d bytes, %d spare, payload %d)", d.Key, d.What, r.Prefix, r.Spare, r.Size), w)
 			}
 		}
 	})
